@@ -365,6 +365,17 @@ spec; `otherSpec` a valid chain for a key of the next spec -/
 inductive Chain | ok | selfSigned | empty | garbage | otherKey | otherSpec
   deriving DecidableEq, Repr, FromJson, ToJson
 
+/-- `response.SignatureEnvelopeType`: the requested media type; the media type of the OTHER registered
+format (truthful when the plugin answered in that format, see `envFmt`); empty; something else -/
+inductive Echo | requested | otherFormat | empty | junk
+  deriving DecidableEq, Repr, FromJson, ToJson
+/-- the blob descriptor generator handed to SignBlob: `fixed` answers every call with the requested
+descriptor; `stream` digests a one-shot reader with the algorithm it is asked for, as the generator of
+`notation.SignBlob` does (first call: the blob's descriptor, later calls: that of the EMPTY blob);
+`failing` returns an error -/
+inductive Gen | fixed | stream | failing
+  deriving DecidableEq, Repr, FromJson, ToJson
+
 structure Desc where
   mediaType : String
   digest : String
@@ -383,7 +394,7 @@ structure Input where
   dkKeyIdOk : Bool
   dkKeySpec : String         -- wire text of the key spec
   -- GenerateEnvelope
-  echoOk : Bool              -- response.SignatureEnvelopeType = requested
+  echo : Echo                -- what response.SignatureEnvelopeType names
   envFmt : Fmt               -- the format really produced
   garbage : Bool             -- envelope bytes that do not parse
   ctypeOk : Bool             -- protected content type = Notary payload type
@@ -397,9 +408,17 @@ structure Input where
   -- both
   sigMode : SigMode
   chain : Chain
+  gen : Gen                  -- SignBlob: the descriptor generator (`req` is the blob's descriptor under the
+                             -- digest algorithm that goes with the key spec)
+  blob : String              -- SignBlob with a stream generator: the blob (the harness digests it; not read here)
+  honest : Bool              -- the plugin signs the request's payload bytes as they are (`payload` is then the
+                             -- canonical payload of `req`); not read here
   dupKeys : Bool             -- redundant: `payload.dupDeep` (checked by a clause)
   emptyAnnMap : Bool         -- the request carries an empty non-nil annotation map (nothing reads the difference)
   deriving Repr, FromJson
+
+/-- the response names the requested envelope type -/
+def Input.echoOk (i : Input) : Bool := i.echo == .requested
 
 inductive Outcome | sig | err | panic
   deriving DecidableEq, Repr, FromJson, ToJson
@@ -557,7 +576,8 @@ def run (i : Input) : Obs :=
       match blobDigestAlg ks with
       | none => errObs
       | some _ =>
-        if hasRaw i.cap then rawPath i ks
+        if i.gen == .failing then errObs          -- the generator is called ONCE, with that algorithm
+        else if hasRaw i.cap then rawPath i ks
         else if hasEnvelope i.cap then envelopePath i
         else errObs
 
